@@ -203,16 +203,25 @@ class Trace:
         self.deadlock = False
         self.horizon = False
         self.diverged = False
+        self.killed: list = []
 
     @property
     def choices(self) -> tuple:
         return tuple(p["chosen"] for p in self.points)
 
 
-def run_schedule(nproc: int, body: Callable[[int, Seam], Any], cache_dir: str, prefix: tuple, horizon: int = 4000) -> Trace:
+def run_schedule(nproc: int, body: Callable[[int, Seam], Any], cache_dir: str, prefix: tuple, horizon: int = 4000,
+                 kills: Optional[dict] = None) -> Trace:
     """Run `nproc` forked children, each executing body(i, seam) under the seams in "sched"
     mode, following `prefix` (choice indices into the canonical enabled order) and choice 0
-    afterwards.  A prefix choice that is out of range is a hard error (divergence)."""
+    afterwards.  A prefix choice that is out of range is a hard error (divergence).
+
+    kills = {process index: k}: that process receives SIGKILL the moment it arrives at its k-th own
+    scheduling point (k >= 1; the point itself is not executed).  Whatever it had written through
+    Python's buffered file object and not flushed is lost, its file locks are released - exactly
+    what the operating system does.  Killing on arrival loses no behaviours: between the arrival
+    and a later kill the victim does nothing, so only the release of its locks would move, and
+    that is the same as the other processes being scheduled later."""
     chans = []
     pids = []
     for i in range(nproc):
@@ -249,8 +258,22 @@ def run_schedule(nproc: int, body: Callable[[int, Seam], Any], cache_dir: str, p
     results: list[Any] = [None] * nproc
     locks: dict[str, int] = {}
 
+    own = [0] * nproc
+    kills = {int(k): int(v) for k, v in (kills or {}).items()}
+
     def fetch(i: int) -> None:
         m = _read_msg(chans[i][0])
+        if m is not None and m[0] != "done" and kills.get(i) == own[i] + 1:
+            os.kill(pids[i], signal.SIGKILL)
+            os.waitpid(pids[i], 0)
+            done[i] = True
+            pending[i] = None
+            results[i] = {"killed": True, "at": m[:2], "own_point": own[i] + 1}
+            for lp in [lp for lp, o in locks.items() if o == i]:
+                locks.pop(lp)
+            tr.killed.append([i, own[i] + 1, m[0], m[1]])
+            return
+        own[i] += 1
         if m is None:
             done[i] = True
             pending[i] = None
